@@ -40,6 +40,8 @@ func init() {
 		defB("worker_err_guarded", g, n > 0, "advertise.go schedule(): errC <- err inside select with <-ctx.Done()")
 		v, ok := stopBeforeReturns(findFunc(adv, "Advertiser.schedule"))
 		defB("sched_waits_workers", v, ok, "advertise.go schedule(): ws.stop() precedes every return inside the main select")
+		v, ok = cancelBeforeStop(findFunc(adv, "Advertiser.schedule"))
+		defB("sched_cancels_before_stop", v, ok, "advertise.go schedule(): in the errC case cancel() precedes ws.stop()")
 		v, ok = cancelBeforeWait(findFunc(lis, "listener.Listen"))
 		defB("listen_cancel_before_wait", v, ok, "listener.go Listen(): deferred func calls cancel() before eg.Wait()")
 		return b.String()
@@ -179,6 +181,50 @@ func stopBeforeReturns(fd *ast.FuncDecl) (bool, bool) {
 		return true
 	})
 	return all && found, found
+}
+
+// cancelBeforeStop: in schedule(), the select case that takes a worker's error calls cancel() before
+// ws.stop(); otherwise a second failing worker can neither hand over its error nor see the cancellation.
+func cancelBeforeStop(fd *ast.FuncDecl) (bool, bool) {
+	if fd == nil || fd.Body == nil {
+		return false, false
+	}
+	found, good := false, true
+	ast.Inspect(fd.Body, func(nd ast.Node) bool {
+		sel, ok := nd.(*ast.SelectStmt)
+		if !ok {
+			return true
+		}
+		for _, c := range sel.Body.List {
+			cc := c.(*ast.CommClause)
+			// only the case that receives from errC
+			recvErr := false
+			if as, ok := cc.Comm.(*ast.AssignStmt); ok && len(as.Rhs) == 1 {
+				if u, ok := as.Rhs[0].(*ast.UnaryExpr); ok && u.Op == token.ARROW {
+					if id, ok := u.X.(*ast.Ident); ok && id.Name == "errC" {
+						recvErr = true
+					}
+				}
+			}
+			if !recvErr {
+				continue
+			}
+			cancelled := false
+			for _, s := range cc.Body {
+				if isCall(s, "", "cancel") {
+					cancelled = true
+				}
+				if isCall(s, "ws", "stop") {
+					found = true
+					if !cancelled {
+						good = false
+					}
+				}
+			}
+		}
+		return true
+	})
+	return good && found, found
 }
 
 // cancelBeforeWait: Listen has a deferred function literal whose body calls cancel() and later
